@@ -280,7 +280,7 @@ def conc_cases(ctx, thorough):
     for sched in rng.sample(all420, 40):
         out.append(mkc("hybrid-redis", old, moving, sched, 3, [x], "lookup||move"))
     # the writers' own windows: all 15 interleavings each
-    for backend in ("memory", "redis"):
+    for backend in ("memory", "redis", "hybrid-redis", "hybrid-shared-mem", "hybrid-mem"):
         for sched in multiset_perms([4, 2]):
             out.append(mkc(backend, old, [[TH_UNREG, 1, 1], [TH_REG, 2, 2, x, 1]], sched, 2, [x], "unregister||register:exhaustive"))
             out.append(mkc(backend, old, [[TH_REFRESH, 1, 1], [TH_REG, 2, 2, x, 1]], sched, 2, [x], "refresh||register:exhaustive"))
@@ -310,7 +310,7 @@ def conc_cases(ctx, thorough):
                 n, cl = conns[c]
                 threads.append([k, n, c, cl, 1] if k == TH_REG else [k, rng.choice([n, n, 3 - n]), c])
         sched = [rng.randrange(len(threads)) for _ in range(rng.randrange(0, 14))]
-        out.append(mkc(rng.choice(["memory", "redis", "hybrid-shared-mem"]), setup, threads, sched, 2, [1, 2], "random"))
+        out.append(mkc(rng.choice(["memory", "redis", "hybrid-shared-mem", "hybrid-redis", "hybrid-mem"]), setup, threads, sched, 2, [1, 2], "random"))
     return out
 
 
@@ -411,7 +411,7 @@ def run(ctx, only_cases=None):
     outs = [o for c, o in zip(all_cases, all_outs) if c["mode"] != "conc"]
     ccases = [c for c in all_cases if c["mode"] == "conc"]
     couts = [o for c, o in zip(all_cases, all_outs) if c["mode"] == "conc"]
-    repaired = list(variant or []) == [1, 1, 1, 1]   # the interleaving model is the repaired code only
+    repaired = list(variant or [])[:4] == [1, 1, 1, 1]   # the interleaving model is the repaired code only
 
     # (iii) the property predicate evaluated on the real code's answers
     nfail, by_key = 0, {}
@@ -523,7 +523,9 @@ def run(ctx, only_cases=None):
         "samples": samples, "steps_compared": steps, "expectations_checked_on_real_code": sum(o["checked"] for o in outs),
         "model_vs_impl_cases": len(terms), "model_vs_impl_mismatches": len(mism), "impl_property_failures": nfail,
         "impl_property_failures_by_key": {k: len(v) for k, v in by_key.items()},
-        "code_variant_probed": dict(zip(["unregister_guard", "refresh_renews_index", "heartbeat_refreshes", "pointer_shape_accepted"], variant or [])),
+        "code_variant_probed": dict(zip(["unregister_guard", "refresh_renews_index", "heartbeat_refreshes", "pointer_shape_accepted",
+                                         "index_test_and_write_is_one_cas"], variant or [])),
+        "index_cas_by_backend": {b: max([o["variant"][4] for c, o in zip(ccases, couts) if c["backend"] == b] or [-1]) for b in BACKENDS},
         "max_wallclock_lateness_ms": max([o["max_late_ms"] for o in outs] or [0]),
         "timing": {"ttl_ms": TTL_MS, "unit_ms": UNIT_MS, "margin_ms": MARGIN_MS},
         "input_distribution": dist, "generated_file_changed": gen_changed,
